@@ -925,6 +925,7 @@ fn has_process_literal(bc: &Bytecode) -> bool {
 // ---------------------------------------------------------------------------------------------
 
 struct Ctx<'a> {
+    hyp_limit: usize,
     b: &'a Builtins,
     model: Model,
     ev: Ev,
@@ -1168,6 +1169,41 @@ fn packaging_case(cx: &mut Ctx, r: &mut Rng, label: &str, src: &str, p: &Bytecod
                         cx.ev.hit(&format!("shake:renumbered:{ctor}:contents-rewritten"));
                     }
                 }
+            }
+            // the hypotheses of `C10.treeShake_preserves_behaviour_computed` decided for this pair (programs up
+            // to a size limit: the check evaluates C08's `tagAccepts` for every IsType operand × every tag)
+            if p.functions.len() <= cx.hyp_limit {
+                let t0 = std::time::Instant::now();
+                let hy = cx.model.ask(&format!("(shake-hypotheses {e} 300)"));
+                cx.ev.add("shake:T1-hypotheses-ms", t0.elapsed().as_millis() as u64);
+                if hy.starts_with("hyp all=true") {
+                    cx.ev.hit("shake:T1-hypotheses-all-hold");
+                } else {
+                    cx.ev.hit("shake:T1-hypotheses-some-fail");
+                    for w in hy.split_whitespace().filter(|w| w.ends_with("=false") && !w.starts_with("all=")) {
+                        cx.ev.hit(&format!("shake:T1-hypothesis-fails:{}", w.trim_end_matches("=false")));
+                    }
+                    if let Some(tok) = hy.split_whitespace().find_map(|w| w.strip_prefix("lost-entries=")) {
+                        for t in tok.split(',').filter(|t| *t != "-" && !t.is_empty()) {
+                            cx.ev.hit(&format!("shake:index-entry-lost:{t}"));
+                        }
+                    }
+                    // the run-time tables of both programs must be what C08's model of compute_type_compatibility /
+                    // compute_param_compatibility yields (small programs only: no fuel-out has been seen there)
+                    if (hy.contains("tables-computed-A=false") || hy.contains("tables-computed-B=false")) && p.functions.len() <= 24 {
+                        cx.ev.violation(
+                            "path=shake kind=tables-not-computed",
+                            &format!("{label}: the run-time compatibility tables are not the ones C08's model computes: {}", clip(&hy)),
+                            json!({"broken": "hypothesis TablesComputed of C10.treeShake_preserves_behaviour_computed (correspondence real tables <-> QM.Types.tagAccepts)", "source": src, "entry": e, "model": hy}),
+                            false,
+                        );
+                    }
+                    if std::env::var("VERIF_DEBUG").is_ok() {
+                        eprintln!("HYP {label}: {hy}\n  {}", src.replace('\n', " "));
+                    }
+                }
+            } else {
+                cx.ev.hit("shake:T1-hypotheses-skipped-size");
             }
         } else {
             cx.ev.hit("shake:model-differs");
@@ -1519,7 +1555,8 @@ fn main() {
     let b = qverif::run::builtins();
     let mut model = Model::spawn(opts.model.as_ref().expect("--model"));
     let _ = model.ask(&format!("(canon-limit {})", opts.tier.pick(48, 1_000_000)));
-    let mut cx = Ctx { b: &b, model, ev, max_rounds: 4000, pool: vec![] };
+    let hyp_limit = opts.tier.pick(24usize, 80usize);
+    let mut cx = Ctx { hyp_limit, b: &b, model, ev, max_rounds: 4000, pool: vec![] };
     let no_modules: HashMap<Vec<String>, String> = HashMap::new();
 
     // ---- single-source / replay mode ------------------------------------------------------------
